@@ -29,7 +29,7 @@ class E2:
 
     def _build_ir(self, d, extra_defs):
         incs = ['-I' + os.path.join(VERIF, 'models', 'immintrin')] + REAL_INCS + ['-I' + os.path.join(VERIF, 'harness'), '-I' + os.path.join(VERIF, 'ref')]
-        base = ['clang-14', '-std=gnu11', '-O0', '-Xclang', '-disable-O0-optnone', '-S', '-emit-llvm', '-w', '-fno-builtin', '-DVERIF_SYMX'] + (['-fopenmp'] if self.openmp else ['-D_OPENMP=201511']) + REAL_DEFS + incs + self.defines + list(extra_defs)
+        base = ['clang-14', '-std=gnu11', '-O0', '-Xclang', '-disable-O0-optnone', '-S', '-emit-llvm', '-w', '-fno-builtin', '-DVERIF_SYMX'] + (['-fopenmp', '-gline-tables-only'] if self.openmp else ['-D_OPENMP=201511']) + REAL_DEFS + incs + self.defines + list(extra_defs)
         units = [os.path.join(VERIF, self.harness)] + [repo_path(s) for s in self.sources] + [os.path.join(VERIF, 'ref', r) for r in self.ref]
         lls = []
         def one(iu):
@@ -89,7 +89,7 @@ class E2:
         if viol:
             seen = {}
             for v in viol:
-                seen.setdefault((v['kind'], v['msg'][:80], v['where'], v.get('failed_alloc'), v.get('io_failed'), v.get('io_fail_op'), str(v.get('interfered'))), v)
+                seen.setdefault((v['kind'], v['msg'][:80], v['where'], v.get('failed_alloc'), v.get('io_failed'), v.get('io_fail_op'), str(v.get('interfered')), str(v.get('preempt_loc'))), v)
             uniq = list(seen.values())
             # violations whose call site is listed by an OPEN known finding of this property are reported as KNOWN-FINDING
             # (after native confirmation); anything else is still a VIOLATION
@@ -123,7 +123,7 @@ class E2:
                 if rep.get('verdict') == 'reproduced' and confirmed is None and known_id(v) is None:
                     confirmed = (v, rep)
             payload = {'property': pid, 'obligation': self.name, 'engine': self.engine, 'harness': self.harness, 'defines': self.defines + extra,
-                       'violations': [{k: v[k] for k in ('kind', 'msg', 'where', 'model', 'choices', 'failed_alloc', 'io_failed', 'io_fail_op', 'interfered', 'notes', 'poke') if k in v} for v in uniq[:40]],
+                       'violations': [{k: v[k] for k in ('kind', 'msg', 'where', 'model', 'choices', 'failed_alloc', 'io_failed', 'io_fail_op', 'interfered', 'notes', 'poke', 'preempt_loc') if k in v} for v in uniq[:40]],
                        'native_replay': reports, 'total_violating_paths': len(viol)}
             path = save_replay(pid, self.name, payload)
             if confirmed:
@@ -155,6 +155,29 @@ class E2:
         return mk('pass', '', stats=stats, functions=functions, notes=conc_notes,
                   sample={'completed_paths': res['completed'], 'one_path_inputs': compact(smp.get('inputs')), 'choices': smp.get('choices'), 'obs': compact_obs(smp.get('obs'))})
 
+    def _preempt_exe(self, d, loc, extra_defs):
+        fname, line, hit = loc
+        if not fname.startswith(REPO): return None
+        rel = os.path.relpath(fname, REPO)
+        try:
+            txt = open(fname).read()
+        except OSError:
+            return None
+        patched = _inject_delay(txt, line, hit)
+        if patched is None: return None
+        pdir = os.path.join(d, 'preempt_%d_%d' % (line, hit)); os.makedirs(pdir, exist_ok=True)
+        psrc = os.path.join(pdir, os.path.basename(fname))
+        with open(psrc, 'w') as f: f.write(patched)
+        lib, errs = native_lib(True)
+        if lib is None: return None
+        exe = os.path.join(pdir, 'native_preempt')
+        cmd = ['gcc', '-std=gnu11', '-O1', '-g', '-w', '-fopenmp', '-fsanitize=address,undefined', '-fno-sanitize-recover=undefined', '-fno-omit-frame-pointer'] + REAL_DEFS + REAL_INCS + \
+              ['-I' + os.path.dirname(fname), '-I' + os.path.join(VERIF, 'harness'), '-I' + os.path.join(VERIF, 'ref'), '-DVERIF_NATIVE'] + self.defines + list(extra_defs) + mflags_for(rel) + \
+              [os.path.join(VERIF, self.harness), os.path.join(VERIF, 'harness', 'e2', 'symx_native.c'), psrc] + [os.path.join(VERIF, 'ref', r) for r in self.ref] + \
+              [lib, '-o', exe, '-no-pie', NATIVE_WRAPS] + native_link_flags(True)
+        rc, out, err, _, _ = run(cmd, timeout=600)
+        return exe if rc == 0 else None
+
     # ---- native replay
     _native_exe = None
     def _native(self, d, v, extra_defs, expect_obs=None):
@@ -175,6 +198,16 @@ class E2:
                 self._native_exe = exe
         if self._native_exe is False:
             return {'verdict': 'replay-build-failed', 'output': self._native_err}
+        exe_to_run = self._native_exe
+        threads = '1'
+        if v.get('preempt_loc'):
+            # Forced-schedule replay of a preemption counterexample: the real code runs with two real OpenMP threads; the worker
+            # that makes the recorded arrival at the recorded source line is delayed there (a sleep inserted in a COPY of that
+            # source file, which is linked in front of the library), so the other worker runs through its iteration meanwhile.
+            pe = self._preempt_exe(d, v['preempt_loc'], extra_defs)
+            if pe is None:
+                return {'verdict': 'not-replayable', 'output': 'could not build the delayed variant for %r' % (v['preempt_loc'],)}
+            exe_to_run = pe; threads = '2'
         import tempfile
         tmp = tempfile.mkdtemp(prefix='fs', dir=d)
         inp = os.path.join(tmp, 'input.txt')
@@ -218,9 +251,9 @@ class E2:
                 if not ok:
                     return {'verdict': 'not-replayable', 'output': 'the partial-initialiser state contains stores that cannot be expressed natively (pointers to data objects / ambiguous symbols)'}
         env = dict(os.environ); env['SYMX_INPUT'] = inp; env['SYMX_TMP'] = tmp
-        env['OMP_NUM_THREADS'] = '1'     # the engine explores the sequential schedule of the OpenMP loops; real interleavings are C07's subject
+        env['OMP_NUM_THREADS'] = threads; env['OMP_WAIT_POLICY'] = 'passive'; env['OMP_DYNAMIC'] = 'false'     # (1 thread:) the engine explores the sequential schedule of the OpenMP loops; real interleavings are C07's subject
         env['ASAN_OPTIONS'] = 'detect_leaks=%d:exitcode=99:allocator_may_return_null=1' % (1 if self.leaks else 0)
-        rc, out, err, secs, to = run([self._native_exe], timeout=60, env=env, cwd=tmp)
+        rc, out, err, secs, to = run([exe_to_run], timeout=60, env=env, cwd=tmp)
         txt = out + err
         if to:
             return {'verdict': 'reproduced' if expect_obs is None else 'obs-mismatch', 'output': 'native run timed out (hang) ' + txt[-300:]}
@@ -240,6 +273,15 @@ class E2:
         if got != exp:
             return {'verdict': 'obs-mismatch', 'output': 'engine obs %r != native obs %r' % (exp[:6], got[:6])}
         return {'verdict': 'agrees'}
+
+
+def _inject_delay(src_text, line, hit):
+    lines = src_text.split('\n')
+    if line < 1 or line > len(lines): return None
+    inj = ('{ static int verif_arrivals_; extern int usleep(unsigned); '
+           'if (__sync_fetch_and_add(&verif_arrivals_, 1) == %d) usleep(150000); } /* verif: forced preemption point */' % hit)
+    lines.insert(line - 1, inj)
+    return '\n'.join(lines)
 
 
 def compact(model):
